@@ -77,6 +77,9 @@ def panic_sites(f):
             if name in ("panic_nounwind", "panic_nounwind_fmt", "panic_cannot_unwind", "panic_in_cleanup", "panic_null_pointer_dereference",
                         "panic_misaligned_pointer_dereference", "panic_invalid_enum_construction"):
                 continue
+            if not msg:
+                # `panic!("{MESSAGE}")` with a named constant: the text of the constant formatted just before the panic
+                msg = _const_message_before(f, bi) or msg
             mac = [m.split("::")[-1].rstrip("!") for m in t["sp"].get("macros", [])]
             mac = [m for m in mac if m not in ("format_args", "const_format_args")]
             yield ("panic", (mac[-1] + ": " if mac else "") + _norm(msg), t["sp"], bi)
@@ -167,6 +170,51 @@ def _bounds_discharged(f, bi):
     return _index_from_position(f, lt["a"], seq)
 
 
+def _const_message_before(f, bi):
+    """the one named string constant mentioned in the straight-line code that leads to block bi (its formatting arguments)"""
+    blocks = f["blocks"]
+    preds = {}
+    for i, b in enumerate(blocks):
+        t = b["term"]
+        succ = []
+        if t["k"] == "goto":
+            succ = [t["target"]]
+        elif t["k"] == "call" and t.get("target") is not None:
+            succ = [t["target"]]
+        elif t["k"] == "drop":
+            succ = [t["target"]]
+        for s_ in succ:
+            preds.setdefault(s_, []).append(i)
+    found = set()
+    cur = bi
+    for _ in range(10):
+        b = blocks[cur]
+        ops = []
+        for st in b["stmts"]:
+            rv = st.get("rv") or {}
+            ops += [rv.get("op"), rv.get("a"), rv.get("b")] + list(rv.get("ops", []))
+            if rv.get("k") == "ref" and isinstance(rv.get("pl"), dict):
+                pass
+        ops += list(b["term"].get("args", []))
+        for o in ops:
+            if isinstance(o, dict) and o.get("k") == "const" and o.get("def") in CONST_STRS:
+                found.add(CONST_STRS[o["def"]])
+            elif isinstance(o, dict) and o.get("k") == "const" and "promoted" in o:
+                # `&MESSAGE` lives in a promoted constant of this function
+                pf = ALL_FNS.get("%s::{promoted#%d}" % (f["key"].split("::{promoted#")[0], o["promoted"]))
+                for pb in (pf or {}).get("blocks", []):
+                    for pst in pb["stmts"]:
+                        prv = pst.get("rv") or {}
+                        for po in [prv.get("op")] + list(prv.get("ops", [])):
+                            if isinstance(po, dict) and po.get("k") == "const" and po.get("def") in CONST_STRS:
+                                found.add(CONST_STRS[po["def"]])
+        ps = preds.get(cur, [])
+        if len(ps) != 1:
+            break
+        cur = ps[0]
+    return _norm(next(iter(found))) if len(found) == 1 else None
+
+
 def _const_nonzero_divisor(f, t):
     """assert(!(divisor == 0)) where the divisor is a non-zero constant"""
     l = op_local(t["cond"]) if t["cond"].get("k") in ("copy", "move") else None
@@ -186,6 +234,7 @@ def _norm(msg):
     return msg[:60]
 
 
+ALL_FNS = {}         # key -> function facts (for promoted constants), filled by collect_sites
 CONST_STRS = {}      # def path -> text of the named `&str` constants of the workspace (filled by collect_sites)
 
 
@@ -231,6 +280,8 @@ def collect_sites(ctx):
         fx = ctx.fx
         CONST_STRS.clear()
         CONST_STRS.update({k: c["str"] for k, c in fx.consts.items() if "str" in c})
+        ALL_FNS.clear()
+        ALL_FNS.update(fx.fns)
         cg = callgraph.get(ctx)
         for e, _ in ZONE_A_ENTRIES:
             fx.fn(e)
@@ -370,7 +421,7 @@ _LE_LEN = {"split_off", "split_at", "split_at_mut", "rotate_left", "rotate_right
 
 def _pool(crate, file, kind, det):
     """identity of a site that survives moving it to another function of its crate (see rule_panic)"""
-    msg = _MACRO.sub("", det) if kind == "panic" else det
+    msg = (_MACRO.sub("", det) if kind == "panic" else det).strip()[:56].strip()
     if kind in ("panic", "expect") and msg and msg not in ("internal error: entered unreachable code", "explicit panic"):
         return ("msg", crate, msg)
     seq = det in _SEQ or det.startswith("[") or kind == "assert:BoundsCheck"
